@@ -102,6 +102,18 @@ pub fn run_alloc<T: Model>(ctx: &mut Ctx) {
             let take = if ctx.thorough { 200 } else { 24 };
             let step = (muts.len() / take).max(1);
             inputs.extend(muts.into_iter().step_by(step));
+            // every 4-byte window of a valid encoding replaced by a huge offset word
+            if i < 2 {
+                for w in 0..(e.len().min(96) / 1) {
+                    if w + 4 <= e.len() {
+                        for word in [0x0100_0000u32, 0x7fff_fff0] {
+                            let mut v = e.clone();
+                            v[w..w + 4].copy_from_slice(&word.to_le_bytes());
+                            inputs.push(v);
+                        }
+                    }
+                }
+            }
             inputs.push(e);
         }
     }
@@ -170,6 +182,44 @@ pub fn run_alloc_large(ctx: &mut Ctx) {
     one::<Vec<[u8; 4096]>>(ctx, "L(X4096)");
     one::<Vec<alloy_primitives::Bloom>>(ctx, "L(X256)");
     note_case("");
+}
+
+/// a recursive type: nesting depth is chosen by the input. Peak live memory must stay linear in the
+/// input length however deep the (valid) encoding nests
+pub fn run_alloc_deep(ctx: &mut Ctx) {
+    use ssz::{Decode, Encode};
+    for depth in [4usize, 64, 512, 2048] {
+        let h = std::thread::Builder::new().stack_size(1 << 30).spawn(move || {
+            let mut v = ssz_node::Node { children: vec![] };
+            for _ in 0..depth {
+                v = ssz_node::Node { children: vec![v] };
+            }
+            let b = v.as_ssz_bytes();
+            std::mem::forget(v); // dropping a deep chain recursively is not what is measured
+            let (ok, m) = measure(|| {
+                let r = catch_unwind(AssertUnwindSafe(|| ssz_node::Node::from_ssz_bytes(&b)));
+                let ok = matches!(r, Ok(Ok(_)));
+                std::mem::forget(r);
+                ok
+            });
+            (b.len(), ok, m.peak, m.total)
+        });
+        match h.map(|t| t.join()) {
+            Ok(Ok((len, ok, peak, total))) => {
+                let tag = format!("depth={} len={} peak={} total={}", depth, len, peak, total);
+                ctx.out.r("C06", "alloc", ok && peak <= 256 * len + 4096, &["deep_nesting_peak_linear", "alloc-deep", &tag]);
+                ctx.out.r("C05", "alloc", ok, &["deep_nesting_decodes", "alloc-deep", &tag]);
+            }
+            _ => ctx.out.r("C05", "alloc", false, &["deep_nesting_thread_failed", "alloc-deep", &depth.to_string()]),
+        }
+    }
+}
+
+mod ssz_node {
+    #[derive(ssz_derive::Encode, ssz_derive::Decode, Clone, PartialEq, Debug)]
+    pub struct Node {
+        pub children: Vec<Node>,
+    }
 }
 
 /// over-limit list decoding does not reserve space for the announced items (C16)
